@@ -11,8 +11,11 @@ for d in $(ls -d /verif/seeded/$G | sort -V); do
   id=$(basename $d); own=${id%%-*}
   if ! git -C $W apply --check $d/patch.diff 2>/dev/null; then echo "SEEDED $id does-not-apply"; continue; fi
   git -C $W apply $d/patch.diff
-  if [ $ALL = 1 ]; then props=$(seq -w 1 20 | sed 's/^/C/'); else props=$own; fi
-  out=$(echo $props | tr ' ' '\n' | xargs -P 5 -I{} sh -c "/verif/bin/sdnsverif -verif /tmp/sd_ev_$$ -repo $W -nomutants -property {} 2>&1 | grep 'key=' | sed 's/^ */{}: /'")
+  if [ $ALL = 1 ]; then
+    out=$(/verif/bin/sdnsverif -repo $W -sweep 2>&1 | grep 'key=\|SWEEP')
+  else
+    out=$(/verif/bin/sdnsverif -verif /tmp/sd_ev_$$ -repo $W -nomutants -property $own 2>&1 | grep 'key=' | sed "s/^ */$own: /")
+  fi
   git -C $W checkout -- . ; git -C $W clean -fdq
   if echo "$out" | grep -q "^$own:"; then echo "SEEDED $id DETECTED"; else echo "SEEDED $id MISSED"; fi
   echo "$out" | sort | uniq | head -8 | sed 's/^/    /'
